@@ -259,6 +259,13 @@ class AEval:
                     args = [self.ev(a, env, depth) for a in e["args"]]
                     return self.call_fn(f.get("resolved") or f["path"], args, depth + 1)
             raise Unknown("call of " + str(f.get("path")))
+        if k == "mcall":
+            target = e.get("resolved") or e.get("path")
+            is_local = e.get("resolved_local") if e.get("resolved") else e.get("local")
+            if is_local and target:
+                args = [self.ev(e["recv"], env, depth)] + [self.ev(a, env, depth) for a in e["args"]]
+                return self.call_fn(target, args, depth + 1)
+            raise Unknown("method call " + str(target))
         if k == "match":
             inner = is_try(e)
             if inner is not None:
